@@ -32,6 +32,8 @@ var allSpecs = []HarnessSpec{
 	{Prop: "C03", Func: "ZZ_C03_FailStop", Tag: "shape=4", POR: true, Replay: "native", Params: map[string]int{"shape": 4, "failing": 1, "__coarse": 1}},
 	{Prop: "C06", Func: "ZZ_C03_FailStop", Tag: "shape=4", POR: true, Replay: "native", Params: map[string]int{"shape": 4, "failing": 1, "__coarse": 1}},
 	{Prop: "C06", Func: "ZZ_C01_Deps", Tag: "shape=6", POR: true, Replay: "native", Params: map[string]int{"shape": 6, "maxconc": 0, "failing": 2, "__coarse": 1}},
+	{Prop: "C06", Func: "ZZ_C06_DistinctOnce", POR: true, Replay: "native", Twin: true, Params: map[string]int{"__coarse": 1}},
+	{Prop: "C02", Func: "ZZ_C11_Deferred", Replay: "native"},
 	{Prop: "C06", Func: "ZZ_C06_RunModes", POR: true, Replay: "native", Twin: true, Params: map[string]int{"failing": 1, "__coarse": 1}, TParams: map[string]int{"failing": 2}},
 	{Prop: "C07", Func: "ZZ_C07_Concurrency", Tag: "shape=1", POR: true, Replay: "native", Twin: true, MustReach: []string{"independent-deps-overlap"}, Params: map[string]int{"shape": 1, "maxconc": 2, "__coarse": 1}},
 	{Prop: "C07", Func: "ZZ_C07_Concurrency", Tag: "shape=2", POR: true, Replay: "native", Params: map[string]int{"shape": 2, "maxconc": 2, "__coarse": 1}},
@@ -50,7 +52,8 @@ var allSpecs = []HarnessSpec{
 	{Prop: "C09", Pkg: "taskfile", Func: "ZZ_C09_Reader", POR: true, Replay: "native", Twin: true, Params: map[string]int{"__coarse": 1}},
 	{Prop: "C10", Pkg: "", Func: "ZZ_C10_Vars", Replay: "native", Twin: true},
 	{Prop: "C10", Pkg: "", Func: "ZZ_C10_Env", Replay: "native", Twin: true},
-	{Prop: "C15", Pkg: "", Func: "ZZ_C15_Resolve", Replay: "native", Twin: true, Params: map[string]int{"tasks": 2, "namelen": 3, "reqlen": 4}, TParams: map[string]int{"tasks": 3, "namelen": 3, "reqlen": 4}},
+	{Prop: "C15", Pkg: "", Func: "ZZ_C15_Resolve", Replay: "native", Twin: true, Params: map[string]int{"tasks": 2, "namelen": 3, "reqlen": 3}, TParams: map[string]int{"tasks": 2, "namelen": 3, "reqlen": 4}},
+	{Prop: "C15", Pkg: "", Func: "ZZ_C15_TableOrder", Replay: "native", Twin: true},
 	{Prop: "C15", Pkg: "", Func: "ZZ_C15_Fuzzy", Replay: "native", Twin: true},
 	{Prop: "C16", Pkg: "taskfile/ast", Func: "ZZ_C16_Unmarshal", Replay: "native", Twin: true, Params: map[string]int{"depth": 0, "maxitems": 1}, TParams: map[string]int{"depth": 0, "maxitems": 2, "__maxpaths": 3000000}},
 	{Prop: "C16", Pkg: "taskfile/ast", Func: "ZZ_C16_Merge", Replay: "native", Twin: true},
